@@ -461,15 +461,44 @@ def andBits (a b : List Bool) : List Bool := List.zipWith (· && ·) a b
 
 def bitsOf : Data → List Bool | .bits xs => xs | _ => []
 
-/-- compile_expr, `Func2(Or | And, …)` arms + the planner rewrite (`And/Or … if nullable` → op on data, `combine_nulls`). -/
+/-- kleene_null_map.rs, one row: is `l AND r` / `l OR r` known, given which operands are known and their data bits?
+    Known if both operands are known, or one operand alone determines the result (FALSE for AND, TRUE for OR). -/
+def kleeneKnown (isOr : Bool) (lk l rk r : Bool) : Bool :=
+  if isOr then (lk && rk) || (lk && l) || (rk && r) else (lk && rk) || (lk && !l) || (rk && !r)
+
+/-- Presence flags of a buffer as a list (a non-nullable buffer is present everywhere). -/
+def presentList (bits : List Bool) : Option (List Bool) → List Bool
+  | some p => p
+  | none => bits.map fun _ => true
+
+/-- `KleeneNullMap::execute` for two boolean buffers (since fix of C03-and-or-null; before: `combine_nulls`, i.e. NULL
+    whenever an operand is NULL). -/
+def kleenePresent (isOr : Bool) (lb : List Bool) (lp : Option (List Bool)) (rb : List Bool) (rp : Option (List Bool)) : List Bool :=
+  List.zipWith (fun (x y : Bool × Bool) => kleeneKnown isOr x.2 x.1 y.2 y.1)
+    (lb.zip (presentList lb lp)) (rb.zip (presentList rb rp))
+
+/-- `KleeneNullMap::execute` with `rhs = None` (an operand that is NULL in every row), for OR: known iff TRUE. -/
+def kleenePresentNull (xb : List Bool) (xp : Option (List Bool)) : List Bool :=
+  List.zipWith (fun b k => kleeneKnown true k b false false) xb (presentList xb xp)
+
+/-- compile_expr, `Func2(Or | And, …)` arms + the planner rewrite (`And/Or … if nullable` → op on the data bytes,
+    `kleene_nulls`: KleeneNullMap + AssembleNullable).
+    Null-typed operand: AND returns the Null operand; OR returns the other operand if that is not boolean, else
+    `NULL OR x`: x's data with the null map "x is TRUE". -/
 def boolNode (isOr : Bool) (l r : Out) : Except Err Out :=
-  -- a Null-typed operand: OR returns the other operand, AND returns the Null operand (since fix a314426; before: the other one)
-  if l.ty.decoded == .null then .ok { (if isOr then r else l) with poison := l.poison || r.poison }
-  else if r.ty.decoded == .null then .ok { (if isOr then l else r) with poison := l.poison || r.poison }
+  if l.ty.decoded == .null || r.ty.decoded == .null then
+    if isOr then
+      let x := if l.ty.decoded == .null then r else l
+      if x.ty.decoded != .boolean then .ok { x with poison := l.poison || r.poison }
+      else .ok { data := x.data, present := some (kleenePresentNull (bitsOf x.data) x.present), ty := boolTy,
+                 poison := l.poison || r.poison }
+    else .ok { (if l.ty.decoded == .null then l else r) with poison := l.poison || r.poison }
   else if l.ty.decoded != .boolean || r.ty.decoded != .boolean then .error .type
   else
     let bits := if isOr then orBits (bitsOf l.data) (bitsOf r.data) else andBits (bitsOf l.data) (bitsOf r.data)
-    .ok { data := .bits bits, present := combinePresent l.present r.present, ty := boolTy, poison := l.poison || r.poison }
+    let present := if l.present.isSome || r.present.isSome
+      then some (kleenePresent isOr (bitsOf l.data) l.present (bitsOf r.data) r.present) else none
+    .ok { data := .bits bits, present := present, ty := boolTy, poison := l.poison || r.poison }
 
 /-- compile_expr, `Func1(Not, …)`: type check, then `.u8()?` (FatalError on a nullable buffer), `BooleanNot` = `b ^ 1`. -/
 def notNode (a : Out) : Except Err Out :=
@@ -551,6 +580,28 @@ def whereFilter (len : Nat) (out : Out) : Except Err (List Nat) :=
   | .integer, .scalarI c => if c = 0 then .ok [] else .ok (List.range len)
   | _, _ => .error .type
 
+/-- String literals of the predicate that are compared with a string column of this partition, with the way the column
+    is stored: `true` = dictionary codec (the literal is consumed by the non-streaming `InverseDictLookup`), `false` =
+    decoded strings (the literal is consumed by a comparison inside a streaming stage). -/
+def strCmpLits (part : Part) : Expr → List (Bytes × Bool)
+  | .cmp _ (.col j) (.lit (.str s)) | .cmp _ (.lit (.str s)) (.col j) =>
+      match colRef part j with
+      | .ok o => if o.ty.decoded.nonNullable == .string then [(s, isDictCodec o.ty.ops)] else []
+      | .error _ => []
+  | .cmp _ l r => strCmpLits part l ++ strCmpLits part r
+  | .and l r | .or l r => strCmpLits part l ++ strCmpLits part r
+  | .not e | .isNull e | .isNotNull e => strCmpLits part e
+  | _ => []
+
+/-- Open finding C03-shared-str-const-panic: the planner's common-subexpression cache shares one `ScalarStr` buffer
+    between all uses of the same literal; when one consumer is `InverseDictLookup` (cannot stream) and another a
+    comparison in a streaming stage, `QueryExecutor::partition` tries to insert a block buffer for the scalar,
+    `operator::buffer` rejects the type and the `unwrap` panics on the worker (executor.rs).  The stage partitioner is
+    not modelled; this predicate is the observed trigger. -/
+def sharedStrLiteral (part : Part) (e : Expr) : Bool :=
+  let ls := strCmpLits part e
+  ls.any fun x => x.2 && ls.any fun y => !y.2 && y.1 == x.1
+
 /-- `NormalFormQuery::run`: compile the WHERE expression, choose the filter, apply it to the projected column;
     `prepare` then rejects operators it cannot instantiate (FatalError).  Result: indices (within the partition) of the
     rows that are kept. -/
@@ -560,7 +611,10 @@ def implFilter (fp : FP) (part : Part) (e : Expr) : Except Err (List Nat) :=
   | .ok out =>
     match whereFilter part.len out with
     | .error err => .error err
-    | .ok idx => if out.poison then .error .fatal else .ok idx
+    | .ok idx =>
+      if out.poison then .error .fatal
+      else if sharedStrLiteral part e then .error .panic      -- executor.prepare → partition() panics
+      else .ok idx
 
 /-- Outcome of the whole query over all partitions. -/
 inductive QOut where
